@@ -511,6 +511,35 @@ pub fn extremes() -> Vec<(&'static str, Vec<Vec<u8>>)> {
         d.extend(vec![0xffu8; 60000]);
         out.push(("v9-7500-max-switched-times", vec![t.wire(), d]));
     }
+    // RFC 6313 structured data nested as deep as a datagram allows: a basicList (element 291) whose
+    // single element is again a basicList of element 291, 12 000 levels, 5 bytes per level. This
+    // library carries the field as opaque octets; a decoder that recurses per level meets its
+    // deepest legal input here.
+    {
+        let levels = 12000usize;
+        let mut content: Vec<u8> = vec![0xde, 0xad];
+        for _ in 0..levels {
+            let l = content.len();
+            let mut lv = vec![0xffu8, 0x01, 0x23];
+            lv.extend_from_slice(&(l as u16).to_be_bytes());
+            lv.extend_from_slice(&content);
+            content = lv;
+        }
+        let t = IpfixMsg { export_time: 1, seq: 1, domain: 1, sets: vec![IpfixSet::Template { records: vec![IpfixTmpl { id: 256, fields: vec![IpfixSpec { type_num: 291, len: 65535, enterprise: None }] }], padding: vec![] }] };
+        let total = 16 + 4 + 3 + content.len();
+        let mut d = vec![];
+        p16(&mut d, 10);
+        p16(&mut d, total as u16);
+        p32(&mut d, 1);
+        p32(&mut d, 2);
+        p32(&mut d, 1);
+        p16(&mut d, 256);
+        p16(&mut d, (4 + 3 + content.len()) as u16);
+        d.push(255);
+        p16(&mut d, content.len() as u16);
+        d.extend_from_slice(&content);
+        out.push(("ipfix-basiclist-nested-12000-levels", vec![t.wire(), d]));
+    }
     // 4095 chained 16-byte IPFIX messages
     {
         let mut d = vec![];
